@@ -654,24 +654,32 @@ static void vbi_proxyd_forward_data( int dev_idx )
             }
          }
 
+         /* link the buffer before the locks are released: the main thread must never see a
+         ** client cursor or a reference count which refers to a buffer outside the queue
+         ** (acquisition thread) */
+         if (p_buf->ref_count > 0)
+            vbi_proxy_queue_add_tail(&p_proxy_dev->p_sliced, p_buf);
+         else
+            vbi_proxy_queue_add_free(p_proxy_dev, p_buf);
+
+         p_proxy_dev->p_tmp_buf = NULL;
+
          pthread_mutex_unlock(&p_proxy_dev->queue_mutex);
          pthread_mutex_unlock(&proxy.clnt_mutex);
       }
-      else if (res < 0)
-      {
-         /* XXX abort upon error (esp. EBUSY) */
-         perror("VBI read");
-      }
-
-      pthread_mutex_lock(&p_proxy_dev->queue_mutex);
-
-      if (p_buf->ref_count > 0)
-         vbi_proxy_queue_add_tail(&p_proxy_dev->p_sliced, p_buf);
       else
-         vbi_proxy_queue_add_free(p_proxy_dev, p_buf);
+      {
+         if (res < 0)
+         {
+            /* XXX abort upon error (esp. EBUSY) */
+            perror("VBI read");
+         }
 
-      p_proxy_dev->p_tmp_buf = NULL;
-      pthread_mutex_unlock(&p_proxy_dev->queue_mutex);
+         pthread_mutex_lock(&p_proxy_dev->queue_mutex);
+         vbi_proxy_queue_add_free(p_proxy_dev, p_buf);
+         p_proxy_dev->p_tmp_buf = NULL;
+         pthread_mutex_unlock(&p_proxy_dev->queue_mutex);
+      }
    }
    else
       dprintf(DBG_MSG, "forward_data: queue overflow\n");
